@@ -11,7 +11,8 @@ import (
 var c12Tokens = []string{"aa.com", "bb.com"}
 
 // names records are attached to: tokens, direct sub-names (registered or not), one deeper name
-var c12Names = []string{"aa.com", "bb.com", "s1.aa.com", "s2.aa.com", "s1.bb.com", "zz.s1.aa.com", "cc.com"}
+// the last one contains a registrable name ("s1.aa.com") twice (seeded change C12-5: first vs last occurrence)
+var c12Names = []string{"aa.com", "bb.com", "s1.aa.com", "s2.aa.com", "s1.bb.com", "zz.s1.aa.com", "cc.com", "zz.s1.aa.com.s1.aa.com"}
 
 var aPool = []string{"1.2.3.4", "8.8.8.8", "93.184.216.34", "5.6.7.8", "11.22.33.44"}
 var aaaaPool = []string{"2a01:4f0:1:2::3", "2001:4860:4860::1111", "2a02:6b0::5", "2607:f0d0:1002:51::4"}
